@@ -429,6 +429,7 @@ type FuncSpec struct {
 	NoPanic  bool   // generate safety obligations
 	Preserves []*PreserveSpec
 	CheckAts  []*CheckAt
+	PreciseElems bool // model copy/append of slices whose elements contain nested structs/arrays element-wise (default: havoc)
 	PreOnly  bool   // only the preconditions are used at call sites; the body is still opened/havocked as if there were no contract
 	Witness  []*Clause // named entry-state terms whose counterexample values the replay generators need
 	NoInline bool
@@ -905,6 +906,11 @@ func (db *SpecDB) parseSpecText(text, file, pkgPath string) error {
 			cl.Props = props
 			ca.Cond = cl
 			cur.CheckAts = append(cur.CheckAts, ca)
+		case "precise-elements":
+			if cur == nil {
+				return fail("precise-elements outside func")
+			}
+			cur.PreciseElems = true
 		case "pre-only":
 			if cur == nil {
 				return fail("pre-only outside func")
